@@ -788,6 +788,15 @@ func (fr *Frame) copyRange(dst *Term, dOff *Term, src *Term, sOff *Term, n *Term
 		}
 		return r
 	}
+	if mx, ok := iteLitMax(n); ok && mx <= 96 {
+		// the length is one of finitely many small literals: guarded stores, no quantifier
+		r := dst
+		for i := int64(0); i < mx; i++ {
+			at := Add(dOff, IntLit(i))
+			r = Store(r, at, Ite(Lt(IntLit(i), n), Select(src, Add(sOff, IntLit(i))), Select(dst, at)))
+		}
+		return r
+	}
 	if B := fr.u.unrollAll; B > 0 {
 		// bounded mode: quantifier-free expansion; longer copies are not explored
 		fr.u.facts = append(fr.u.facts, Implies(fr.reach, Le(n, IntLit(int64(B)))))
@@ -1069,4 +1078,22 @@ func (fr *Frame) allocBound(in ssa.Instruction, size *Term, what string) {
 		return
 	}
 	fr.oblig(in, "alloc.limit", Le(size, cv.asInt()), what+": size bounded by the declared measure "+top.contract.Alloc.Src)
+}
+
+// iteLitMax: n is a tree of ite over integer literals; returns the largest leaf.
+func iteLitMax(n *Term) (int64, bool) {
+	if v, ok := n.Int64(); ok {
+		return v, true
+	}
+	if n.Op == "ite" {
+		a, ok1 := iteLitMax(n.Args[1])
+		b, ok2 := iteLitMax(n.Args[2])
+		if ok1 && ok2 {
+			if a > b {
+				return a, true
+			}
+			return b, true
+		}
+	}
+	return 0, false
 }
